@@ -66,6 +66,10 @@ spec:
 }
 
 func c13DocYAML(fileIdx, docIdx int, d c13Doc, tmpl bool, helper bool) string {
+	if d.Phase == "empty" {
+		// a document without content (only a comment): no object at all
+		return "# intentionally left blank\n"
+	}
 	name := fmt.Sprintf("o%d-%d", fileIdx, docIdx)
 	var b strings.Builder
 	b.WriteString("apiVersion: v1\nkind: ConfigMap\nmetadata:\n")
@@ -207,6 +211,9 @@ func c13Rows(seed int64, n int) []c13Pkg {
 				if dd.Phase == "none" {
 					// mostly valid; the invalid ones: no annotation, a phase name with stray whitespace, an unknown phase
 					dd.Phase = []string{"p2", "p2", "p2", "p2", "p2", "p2", "none", "p1ws", "unknown"}[rng.Intn(9)]
+				}
+				if d > 0 && rng.Intn(5) == 0 {
+					dd = c13Doc{Phase: "empty", Cel: "none"} // an empty document right after a non-empty one
 				}
 				f.Docs = append(f.Docs, dd)
 			}
